@@ -733,6 +733,10 @@ func ruleR09_45(c *Ctx) {
 			hitVal = rd
 		}
 		miss := anyFact(negate(hit), factNil(isRd, true)) // (nothing stored at all is a miss too)
+		if hitVal != nil && hitVal != ssa.Value(rd) {
+			// (a defensive `ok && v != nil`: an asserted pointer that is nil is no cached result either)
+			miss = anyFact(miss, factNil(vIs(hitVal), true))
+		}
 		// R09.5 computing call only on miss
 		comps := callsIn(f, m.compute...)
 		c.obRF("R09.5", f, "computes", len(comps) == 1, "the accessor has one computing call", fmt.Sprintf("%d", len(comps)))
